@@ -30,11 +30,11 @@ TIERS = {
     'quick': {'shards': 14, 'random': 1700, 'timeout': 900, 'min_cases': 1000, 'max_timeouts': 5,
               'require_branches': ['shape:polygon', 'shape:bezier', 'shape:arcs', 'orientation:cw', 'orientation:ccw',
                                    'enclosed:True', 'enclosed:False', 'contained:True', 'contained:False',
-                                   'relation:reversed', 'shape:self-intersecting', 'probe:axis-parallel']},
+                                   'relation:reversed', 'shape:self-intersecting', 'probe:axis-parallel', 'coords:grid-aligned']},
     'thorough': {'shards': 14, 'random': 90000, 'timeout': 3400, 'min_cases': 50000, 'max_timeouts': 100,
                  'require_branches': ['shape:polygon', 'shape:bezier', 'shape:arcs', 'orientation:cw', 'orientation:ccw',
                                       'enclosed:True', 'enclosed:False', 'contained:True', 'contained:False',
-                                      'relation:reversed', 'shape:self-intersecting', 'probe:axis-parallel']},
+                                      'relation:reversed', 'shape:self-intersecting', 'probe:axis-parallel', 'coords:grid-aligned']},
 }
 CASE_TIMEOUT = 30
 EPS = gen.EPS
@@ -124,6 +124,13 @@ def probe_in_general_position(p, pt, opt, size):
     sgn = np.sign(v)
     cross = np.nonzero((sgn[1:] * sgn[:-1] <= 0) & near_seg[1:] & near_seg[:-1])[0]
     joints = np.array([complex(s.start) for s in p])
+    # two crossings at (nearly) the same point: the probe passes through a point where the path meets itself (a
+    # self-intersection, or an edge traced twice) - as little general position as passing through a joint
+    zs = sorted(((a0[i] + a1[i]) / 2 - pt) / r for i in cross)
+    zs = [z.real for z in zs]
+    zs.sort()
+    if any(b - a < 1e-3 * size / abs(r) for a, b in zip(zs, zs[1:])):
+        return False, 'two crossings within 1e-3*size of each other'
     for i in cross:
         zc = (a0[i] + a1[i]) / 2
         seg_dir = a1[i] - a0[i]
@@ -321,9 +328,42 @@ def _closed_specs(rng, scale, centre):
     return specs, cls
 
 
+def _crown(rng):
+    """outer: a box whose top edge is a zigzag with valley tips at integer height h; inner: a small triangle that
+    starts exactly level with the valley tips, to the right of one of them (integer / CAD-style alignment)"""
+    n = rng.randint(1, 4)
+    H = rng.randint(6, 12)
+    h = rng.randint(2, H - 3)
+    W = 4 * n
+    k = 2.0 ** rng.randint(-2, 3)
+    off = complex(rng.randint(-20, 20), rng.randint(-20, 20))
+    pts = [0j, complex(W, 0), complex(W, H)]
+    for j in range(n):
+        pts.append(complex(W - 4 * j - 2, h))
+        pts.append(complex(W - 4 * j - 4, H))
+    if rng.random() < 0.5:
+        pts.reverse()
+    pts = [(z + off) * k for z in pts]
+    outer = [['L', [a.real, a.imag], [b.real, b.imag]] for a, b in zip(pts, pts[1:] + pts[:1])]
+    v = rng.randrange(n)
+    x0 = 4 * v + 2 + rng.choice([1, 0.75, 1.25])
+    tri = [complex(x0, h), complex(x0 + 0.3, h + 0.2), complex(x0 + 0.1, h - 0.3)]
+    if rng.random() < 0.3:
+        tri = [z + complex(0, rng.choice([H, -H - 3])) for z in tri]      # the same, but outside the box
+    tri = [(z + off) * k for z in tri]
+    inner = [['L', [a.real, a.imag], [b.real, b.imag]] for a, b in zip(tri, tri[1:] + tri[:1])]
+    return outer, inner, max(W, H) * k, (complex(W / 2.0, H / 2.0) + off) * k
+
+
 def cases(ctx):
     rng = ctx.rng
     n = TIERS[ctx.tier]['random'] // ctx.nshards
+    for i in range(n // 12):
+        outer, inner, scale, centre = _crown(rng)
+        pts = [[centre.real + scale * rng.uniform(-0.7, 0.7), centre.imag + scale * rng.uniform(-0.7, 0.7)] for _ in range(2)]
+        outs = [[centre.real - 3 * scale, centre.imag + scale * rng.uniform(-3, 3)]]
+        yield {'kind': 'closed', 'segs': outer, 'other': inner, 'rel': 'nested-aligned', 'pts': pts, 'outs': outs, 'grid': True,
+               'tf': {'z': [3.0, -7.0], 'sx': 2.0, 'sy': -0.5}, 'cls': ['shape:polygon', 'rel:nested-aligned']}
     for i in range(n):
         scale = 10.0 ** rng.uniform(-0.5, 2.5)
         centre = gen.scaled_point(rng, scale)
@@ -342,7 +382,19 @@ def cases(ctx):
                for _ in range(4)]
         outs = [[centre.real + scale * rng.choice([-3, 3]) * rng.uniform(1, 2), centre.imag + scale * rng.uniform(-3, 3)]
                 for _ in range(2)]
-        yield {'kind': 'closed', 'segs': specs, 'other': s2, 'rel': rel, 'pts': pts, 'outs': outs,
+        grid = False
+        if rng.random() < 0.45 and 'shape:arcs' not in cls and s2 and not any(sp[0] == 'A' for sp in s2):
+            # grid-aligned (integer) coordinates, as CAD-style and hand-written files have: vertices of the outer path
+            # level with the inner path's start are the rule there, not the exception
+            unit = scale / 8.0
+
+            def snap(sp):
+                return [sp[0]] + [[round(v[0] / unit) * unit, round(v[1] / unit) * unit] for v in sp[1:]]
+            g1, g2 = [snap(sp) for sp in specs], [snap(sp) for sp in s2]
+            if all(sp[1] != sp[-1] for sp in g1 + g2):
+                specs, s2, grid = g1, g2, True
+                pts = [[round(z[0] / unit) * unit + rng.choice([0, 0.5]) * unit, round(z[1] / unit) * unit] for z in pts]
+        yield {'kind': 'closed', 'segs': specs, 'other': s2, 'rel': rel, 'pts': pts, 'outs': outs, 'grid': grid,
                'tf': {'z': [rng.uniform(-50, 50), rng.uniform(-50, 50)], 'sx': rng.choice([2.0, -1.5, 0.5]),
                       'sy': rng.choice([3.0, -0.5, 1.0])},
                'cls': cls + ['rel:' + rel]}
@@ -354,6 +406,8 @@ def run_case(ctx, case):
     for c in case['cls']:
         if c.startswith('shape:'):
             ctx.branch(c)
+    if case.get('grid'):
+        ctx.branch('coords:grid-aligned')
     has_arcs = any(type(s).__name__ == 'Arc' for s in p)
     size = max(I.diag(s) for s in p)
     if has_arcs:
